@@ -90,6 +90,7 @@ func c08Tree(c *rt.Ctx, fsType string, rep int, G, steps int, sharedView bool, c
 		gn := gen.New(cfg, r)
 		env := fsx.NewEnv(v)
 		wg.Add(1)
+		g := g
 		go func() {
 			defer wg.Done()
 			for i := 0; i < steps; i++ {
@@ -97,6 +98,13 @@ func c08Tree(c *rt.Ctx, fsType string, rep int, G, steps int, sharedView bool, c
 					// a cheap refresh of what exists (racy by nature, only used to bias the generator)
 					s := fsx.Snap(v, "/w", fsx.SnapOpts{MaxNodes: 40})
 					gn.Observe(s.Recs, "/")
+				}
+				if i%23 == 5 {
+					// the creation mask is an atomic of the file system (or of the view): set and read by everybody while
+					// others create
+					_ = v.SetUMask([]os.FileMode{0o022, 0o027, 0o002}[(i+g)%3])
+					_ = v.UMask()
+					calls.add("SetUMask")
 				}
 				o := gn.Next()
 				if o.K == "F.Chdir" || (sharedView && (o.K == "Chdir")) {
